@@ -1135,6 +1135,12 @@ class Interp:
                     return NumV(self.heads.abs(v.rat), v.ut)
                 if isinstance(v, QuantV):
                     return self.dispatch(fi, e, env, None)
+            if f.id == "divmod" and len(e.args) == 2:
+                a0, b0 = self.to_num(self.eval(fi, e.args[0], env)), self.to_num(self.eval(fi, e.args[1], env))
+                if a0 is not None and b0 is not None:
+                    self.events.append(Event("floordiv", e, {"func": fi.qual}))
+                    q0 = self.num_op(fi, e, "Div", a0, b0)
+                    return TupleV([q0, NumV(Rat.atom(f"rem[{a0.rat!r};{b0.rat!r}]"))])
             if f.id == "round" and e.args:
                 v = self.eval(fi, e.args[0], env)
                 if isinstance(v, NumV):
